@@ -100,6 +100,20 @@ def catalogue(rng, tier='quick'):
         add('TReg', [('t', 1), ('e', 1)], [('q', 1)], lambda t, i, o: P.TReg(t, 'x', i['t'], o['q'], enable=i['e']))
         dl = rng.randint(1, 3)
         add('DelayLine', [('a', w), ('en', 1), ('reset', 1)], [('r', w)], lambda t, i, o, dl=dl: P.DelayLine(t, 'x', i['a'], i['en'], i['reset'], o['r'], dl))
+        # configurations that became legal / right with the /repo repairs (scalar operands, mixed widths, wide controls, oversized constants)
+        add('Range1', [('a', 1)], [('r', W(1, 3))], lambda t, i, o: P.Range(t, 'x', i['a'], 0, 0, o['r']))
+        add('Bit1', [('a', 1)], [('r', 1)], lambda t, i, o: P.Bit(t, 'x', i['a'], 0, o['r']))
+        add('Sign1', [('a', 1)], [('r', 1)], lambda t, i, o: P.Sign(t, 'x', i['a'], o['r']))
+        ws = W(1, 9)
+        add('SignExtendAny', [('a', ws)], [('r', max(1, ws + rng.randint(-3, 3)))], lambda t, i, o: P.SignExtend(t, 'x', i['a'], o['r']))
+        add('SignExtend1', [('a', 1)], [('r', W(1, 6))], lambda t, i, o: P.SignExtend(t, 'x', i['a'], o['r']))
+        add('Xor2Mixed', [('a', w), ('b', w2)], [('r', wr)], lambda t, i, o: P.Xor2(t, 'x', i['a'], i['b'], o['r']))
+        add('EqualMixed', [('a', w), ('b', w2)], [('r', 1)], lambda t, i, o: P.Equal(t, 'x', i['a'], i['b'], o['r']))
+        add('Mux2WideSel', [('s', W(2, 3)), ('a', w), ('b', w)], [('r', w)], lambda t, i, o: P.Mux2(t, 'x', i['s'], i['a'], i['b'], o['r']))
+        ev2 = rng.randrange(1 << (w + 2))
+        add('EqualConstantBig', [('a', w)], [('r', 1)], lambda t, i, o, ev2=ev2: P.EqualConstant(t, 'x', i['a'], ev2, o['r']))
+        add('RegWideE', [('d', w), ('e', W(2, 3))], [('q', w)], lambda t, i, o: P.Reg(t, 'x', i['d'], o['q'], enable=i['e']))
+        add('ConcatEmpty', [('a', 1)], [('r', wr), ('p', 1)], lambda t, i, o: (P.ConcatenateMSBF(t, 'x', [], o['r']), P.Buf(t, 'y', i['a'], o['p'])))
     return out
 
 
@@ -111,7 +125,7 @@ def random_top(rng, n_blocks=8):
     outs = [('out%d' % k, rng.randint(1, 8)) for k in range(n_out)]
     info = {}
     def body(t, i, o):
-        _, _, inf = designs.build_random(rng, n_blocks=n_blocks, parent=t, in_wires=[i[n] for n, _ in ins], out_wires=[o[n] for n, _ in outs], shuffle=True, plain_reset='nonneg', xor_equal_widths=True)
+        _, _, inf = designs.build_random(rng, n_blocks=n_blocks, parent=t, in_wires=[i[n] for n, _ in ins], out_wires=[o[n] for n, _ in outs], shuffle=True, plain_reset='nonneg')
         info.update(inf)
     hw, top = make_top('RandTop', ins, outs, body)
     return hw, top, ins, outs, info
